@@ -69,6 +69,9 @@ func (ex *Exec) callFn(fr *Frame, st *State, pc *Term, fn *ssa.Function, args []
 		return ex.specForall(fr, st, pc, args[0]), pc
 	case "verif_forall_range":
 		return ex.specForallRange(fr, st, pc, args[0].(VBV).T, args[1].(VBV).T, args[2]), pc
+	case "verif_held":
+		// the mutex is held by the current request
+		return VBool{Select(st.comp(compHeld, heldSort), lockID(args[0]))}, pc
 	case "verif_disjoint":
 		// the element windows of two slices do not overlap
 		a, b := args[0].(VSlice), args[1].(VSlice)
@@ -464,6 +467,14 @@ func (ex *Exec) modularCall(fr *Frame, st *State, pc *Term, fn *ssa.Function, c 
 	// allocates live at ids >= nextPre, about which nothing was ever assumed, so the
 	// components need not be replaced as a whole: the havoc is a set of point updates.
 	ex.havocTargets(st, pc, targets)
+	// ghost components (files, buffers, sync.Map versions) the callee may write are unknown afterwards;
+	// the lock set is restored by the callee (its lock-balance obligation)
+	for comp := range ws {
+		if strings.HasPrefix(comp, "G|") && comp != compHeld && compSorts[comp] != nil {
+			ex.noteWrite(comp)
+			st.setComp(comp, Fresh("havoc$"+comp, compSorts[comp]))
+		}
+	}
 	// results
 	res := fn.Signature.Results()
 	var rvals []Value
